@@ -183,7 +183,11 @@ Inductive next_spec (cfg : pcfg) (s : src) (m : mem) : nres -> src -> mem -> Pro
     items_left s' < items_left s ->
     mem_ext m m' -> observe m' p = spec_pkt d c ->
     (safe cfg s -> fresh_ok m' (k_data p) /\ length m <= v_arr (k_data p)) ->
+    v_arr (k_data p) < length m' ->
     next_spec cfg s m (NPkt p) s' m'.
+
+Lemma skind_zero_dec (k : skind) : {k = SZero} + {k <> SZero}.
+Proof. destruct k; [right; discriminate|left; reflexivity|right; discriminate]. Qed.
 
 Lemma next_packet_spec cfg s m r s' m' : mem_ok m -> fits s m ->
   next_packet dec cfg s m = (r, s', m') -> next_spec cfg s m r s' m'.
@@ -200,18 +204,22 @@ Proof.
       * unfold observe, spec_pkt; cbn [k_data k_ci k_trunc]. reflexivity.
       * intros Sf. cbn [k_data]. assert (K : s_kind s <> SZero) by (intros K; specialize (Sf K); congruence).
         destruct (Hnz K) as (A & B & C). split; [assumption|lia].
+      * cbn [k_data]. destruct (skind_zero_dec (s_kind s)) as [K|K].
+        -- destruct (Hz K) as (A & B). rewrite A, B. exact Hm.
+        -- destruct (Hnz K) as (A & _). unfold fresh_ok in A. lia.
     + destruct (alloc m1 (vread m1 v)) as [m2 pv] eqn:Ea.
       inversion E; subst; clear E.
       destruct (alloc_spec _ _ _ _ (mem_ok_ext _ _ Hext Hm) Ea) as (X1 & X2 & X3 & X4 & X5).
       apply (NS_pkt cfg s m _ c _ s' m' _ Hfl eq_refl Hk Hlt (mem_ext_trans _ _ _ Hext X1)).
       * unfold observe, spec_pkt; cbn [k_data k_ci k_trunc]. rewrite X3. reflexivity.
       * intros _. cbn [k_data]. split; [assumption|]. destruct Hext as (L & _). lia.
+      * cbn [k_data]. unfold fresh_ok in X2. lia.
 Qed.
 
 Lemma next_spec_frame cfg s m r s' m' : fits s m -> next_spec cfg s m r s' m' -> fits s' m' /\ mem_ext m m'.
 Proof.
   intros F R.
-  destruct R as [Hfl s1 Hfl' Hk | k rest s1 Hfl Hfl' Hk Hlt | d c rest s1 m1 p Hfl Hfl' Hk Hlt Hext Hobs Hsafe].
+  destruct R as [Hfl s1 Hfl' Hk | k rest s1 Hfl Hfl' Hk Hlt | d c rest s1 m1 p Hfl Hfl' Hk Hlt Hext Hobs Hsafe Hbnd].
   - split; [|apply mem_ext_refl]. intros K. rewrite Hfl'. constructor.
   - split; [|apply mem_ext_refl]. intros K. rewrite Hk in K. specialize (F K). rewrite Hfl in F. subst rest. inversion F; subst; assumption.
   - split; [|assumption]. intros K. rewrite Hk in K. specialize (F K). rewrite Hfl in F. subst rest. inversion F; subst.
@@ -237,7 +245,7 @@ Proof.
   match goal with |- context [pull_n dec n ?S1] => destruct (pull_n dec n S1) as [l s2] eqn:Ep;
     assert (IHs := IH k S1) end.
   cbn [t_mem t_src] in IHs. rewrite Ep in IHs. cbn [fst] in *. specialize (IHs ltac:(lia) Hm1 Hf1). subst l.
-  destruct R as [Hfl s1 Hfl' Hkd | ke rest s1 Hfl Hfl' Hkd Hlt | d c rest s1 m1 p Hfl Hfl' Hkd Hlt Hext Hobs Hsafe].
+  destruct R as [Hfl s1 Hfl' Hkd | ke rest s1 Hfl Hfl' Hkd Hlt | d c rest s1 m1 p Hfl Hfl' Hkd Hlt Hext Hobs Hsafe Hbnd].
   - cbn [t_src] in *. rewrite Hfl, Hfl'. cbn [app]. rewrite !firstn_repeat by lia. reflexivity.
   - cbn [t_src] in *. rewrite Hfl. subst rest. cbn [app firstn map spec_res t_mem]. reflexivity.
   - cbn [t_src] in *. rewrite Hfl. subst rest. cbn [app firstn map spec_res t_mem]. f_equal. f_equal. exact Hobs.
@@ -352,7 +360,7 @@ Proof.
     { destruct (t_closed s) eqn:X; [|reflexivity]. destruct I as (I1 & _). specialize (I1 eq_refl). discriminate I1. }
     assert (NS : t_seen_closed s = true -> False).
     { intros S. destruct (J S) as (X & _). congruence. }
-    destruct R as [Hfl s1 Hfl' Hkd | ke rest s1 Hfl Hfl' Hkd Hlt | d ci rest s1 m1 p Hfl Hfl' Hkd Hlt Hext Hobs Hsafe].
+    destruct R as [Hfl s1 Hfl' Hkd | ke rest s1 Hfl Hfl' Hkd Hlt | d ci rest s1 m1 p Hfl Hfl' Hkd Hlt Hext Hobs Hsafe Hbnd].
     + (* implicit io.EOF *)
       rewrite classify_eof. rewrite Hfl in Gr. cbn [before_stop] in Gr.
       mkinv.
@@ -430,11 +438,40 @@ Proof.
   - exact HI.
 Qed.
 
-Lemma inv_step all c s e : Inv all s -> Inv all (step dec c s e).
-Proof. destruct e; cbn [step]; [apply inv_prod|apply inv_recv|apply inv_cancel]. Qed.
+(* an assignment of NoCopy keeps the configuration safe unless it switches NoCopy on for a
+   buffer-reusing source *)
+Definition ev_safe (k : skind) (e : ev) : Prop :=
+  match e with EvSetOpt true => k <> SZero | _ => True end.
 
-Lemma inv_run all c evs : forall s, Inv all s -> Inv all (run dec c s evs).
-Proof. induction evs as [|e evs IH]; intros s HI; [exact HI|]. cbn [run fold_left]. apply IH. apply inv_step. exact HI. Qed.
+Lemma inv_setopt all b s : ev_safe (s_kind (t_src s)) (EvSetOpt b) -> Inv all s -> Inv all (step_setopt b s).
+Proof.
+  intros Sf [A B C D E F G H I J]. unfold step_setopt. mkinv; try assumption.
+  unfold safe; cbn [p_nocopy]. intros K. destruct b; [contradiction (Sf K)|reflexivity].
+Qed.
+
+Lemma step_kind c s e : s_kind (t_src (step dec c s e)) = s_kind (t_src s).
+Proof.
+  destruct e as [b| | |b]; cbn [step]; try reflexivity.
+  - unfold step_prod. destruct (t_pc s); try reflexivity.
+    + destruct (t_cancel s); reflexivity.
+    + unfold next_packet, src_read.
+      destruct (match s_kind (t_src s) with SConcat => concat_read (s_h (t_src s)) | _ => plain_read (s_h (t_src s)) end) as [it hs'].
+      destruct it as [d ci|k]; [|reflexivity].
+      destruct (s_kind (t_src s)) eqn:K;
+        [destruct (alloc (t_mem s) d) as [m1 v]|destruct (bufwrite (t_mem s) d) as [m1 v]|destruct (alloc (t_mem s) d) as [m1 v]];
+        destruct (new_packet dec (p_nocopy (t_cfg s)) m1 v) as [[m2 pv] tr]; stfields; cbn [s_kind]; reflexivity.
+    + destruct (t_cancel s); [destruct ((length (t_chan s) <? c) && negb b)|destruct (length (t_chan s) <? c)]; reflexivity.
+  - unfold step_recv. destruct (t_chan s); [destruct (t_closed s)|]; reflexivity.
+Qed.
+
+Lemma inv_step all c s e : ev_safe (s_kind (t_src s)) e -> Inv all s -> Inv all (step dec c s e).
+Proof. destruct e; cbn [step]; intros Sf; [apply inv_prod|apply inv_recv|apply inv_cancel|apply inv_setopt; exact Sf]. Qed.
+
+Lemma inv_run all c evs : forall s, Forall (ev_safe (s_kind (t_src s))) evs -> Inv all s -> Inv all (run dec c s evs).
+Proof.
+  induction evs as [|e evs IH]; intros s HF HI; [exact HI|]. cbn [run fold_left].
+  inversion HF; subst. apply IH; [rewrite step_kind; assumption|apply inv_step; assumption].
+Qed.
 
 (* ------------------------------------------------------------------ before PacketsCtx *)
 Record PreStart (s : st) : Prop := mkPre {
@@ -525,7 +562,7 @@ Definition CInv (s : st) : Prop :=
 
 Lemma cinv_step c s e : CInv s -> CInv (step dec c s e).
 Proof.
-  intros HC. pose proof HC as (A & B). destruct e as [b| |]; cbn [step].
+  intros HC. pose proof HC as (A & B). destruct e as [b| | |bo]; cbn [step].
   - unfold step_prod. destruct (t_pc s) eqn:Hpc; try exact HC.
     + destruct (t_cancel s) eqn:Hc.
       * unfold close_done, CInv; stfields. rewrite ?Hc. split; [discriminate|]. intros _. apply B. reflexivity.
@@ -549,6 +586,7 @@ Proof.
     destruct (t_cancel s) eqn:Hc.
     + apply B. reflexivity.
     + destruct (A eq_refl) as (A1 & A2). rewrite A1, A2. destruct (t_pc s); lia.
+  - exact HC.
 Qed.
 
 Lemma cinv_run c evs : forall s, CInv s -> CInv (run dec c s evs).
@@ -570,7 +608,7 @@ Lemma crank_step c s e : t_cancel s = true ->
   t_cancel (step dec c s e) = true /\
   crank (t_pc (step dec c s e)) <= crank (t_pc s) - (match e with EvProd _ => 1 | _ => 0 end).
 Proof.
-  intros Hc. destruct e as [b| |]; cbn [step].
+  intros Hc. destruct e as [b| | |bo]; cbn [step].
   - unfold step_prod. destruct (t_pc s) eqn:Hpc; rewrite ?Hc; cbn [crank]; try (rewrite Hpc; cbn [crank]; split; [first [assumption|reflexivity]|lia]).
     + unfold close_done; stfields. cbn [crank]. split; [first [assumption|reflexivity]|lia].
     + destruct (next_packet dec (t_cfg s) (t_src s) (t_mem s)) as [[r s1] m1]. stfields.
@@ -578,6 +616,7 @@ Proof.
     + destruct ((length (t_chan s) <? c) && negb b); unfold send, close_done; stfields; cbn [crank]; split; first [assumption|reflexivity|lia].
   - unfold step_recv. destruct (t_chan s); [destruct (t_closed s)|]; stfields; split; first [assumption|reflexivity|lia].
   - unfold step_cancel; stfields. split; [reflexivity|lia].
+  - unfold step_setopt; stfields. split; [assumption|lia].
 Qed.
 
 Lemma crank_run c evs : forall s, t_cancel s = true ->
@@ -591,7 +630,7 @@ Qed.
 
 Lemma started_step c s e : t_pc s <> PIdle -> t_pc (step dec c s e) <> PIdle.
 Proof.
-  intros H. destruct e as [b| |]; cbn [step].
+  intros H. destruct e as [b| | |bo]; cbn [step].
   - unfold step_prod. destruct (t_pc s) eqn:Hpc; try (rewrite Hpc; assumption).
     + destruct (t_cancel s); unfold close_done; stfields; discriminate.
     + destruct (next_packet dec (t_cfg s) (t_src s) (t_mem s)) as [[r s1] m1]. stfields.
@@ -599,6 +638,7 @@ Proof.
     + destruct (t_cancel s); [destruct ((length (t_chan s) <? c) && negb b)|destruct (length (t_chan s) <? c)];
         unfold send, close_done; stfields; try discriminate. rewrite Hpc. discriminate.
   - unfold step_recv. destruct (t_chan s); [destruct (t_closed s)|]; stfields; assumption.
+  - exact H.
   - exact H.
 Qed.
 
@@ -611,7 +651,7 @@ Lemma cancel_pot_step c s e : t_cancel s = true ->
   t_reads (step dec c s e) + reading (t_pc (step dec c s e)) <= t_reads s + reading (t_pc s) /\
   sent (step dec c s e) + may_send (t_pc (step dec c s e)) <= sent s + may_send (t_pc s).
 Proof.
-  intros Hc. unfold sent. destruct e as [b| |]; cbn [step].
+  intros Hc. unfold sent. destruct e as [b| | |bo]; cbn [step].
   - unfold step_prod. destruct (t_pc s) eqn:Hpc; rewrite ?Hc; try (rewrite Hpc; lia).
     + unfold close_done; stfields. cbn [reading may_send]. lia.
     + destruct (next_packet dec (t_cfg s) (t_src s) (t_mem s)) as [[r s1] m1]. stfields.
@@ -620,6 +660,7 @@ Proof.
         rewrite ?app_length; cbn [length]; lia.
   - unfold step_recv. destruct (t_chan s) eqn:Hch; [destruct (t_closed s)|]; stfields; rewrite ?Hch, ?app_length; cbn [length]; lia.
   - unfold step_cancel; stfields. lia.
+  - unfold step_setopt; stfields. lia.
 Qed.
 
 Lemma cancel_pot_run c evs : forall s, t_cancel s = true ->
@@ -680,10 +721,15 @@ Lemma st_eta s : s = mkst (t_cfg s) (t_src s) (t_mem s) (t_pc s) (t_chan s) (t_c
   (t_seen_closed s) (t_reads s) (t_reads_ac s) (t_sends_ac s).
 Proof. destruct s; reflexivity. Qed.
 
-(* every event either leaves the state alone (not enabled / nothing to do) or decreases the measure *)
-Lemma step_measure c s e : step dec c s e = s \/ measure (step dec c s e) < measure s.
+(* every event either leaves the state alone (not enabled / nothing to do) or decreases the
+   measure; an assignment of the option leaves the measure as it is *)
+Definition is_opt (e : ev) : bool := match e with EvSetOpt _ => true | _ => false end.
+
+Lemma step_measure c s e : step dec c s e = s \/ measure (step dec c s e) < measure s \/
+  (is_opt e = true /\ measure (step dec c s e) = measure s).
 Proof.
-  destruct e as [b| |]; cbn [step].
+  destruct e as [b| | |bo]; cbn [step]; [| | |right; right; split; reflexivity];
+  match goal with |- ?A \/ ?B \/ _ => cut (A \/ B); [intros [X|X]; auto|] end.
   - destruct (t_pc s) eqn:Hpc.
     + left. unfold step_prod. rewrite Hpc. reflexivity.
     + right. apply prod_measure. unfold prod_enabled. rewrite Hpc. exact Logic.I.
@@ -709,21 +755,26 @@ Lemma run_measure c evs : forall s, measure (run dec c s evs) <= measure s.
 Proof.
   induction evs as [|e evs IH]; intros s; cbn [run fold_left]; [lia|].
   specialize (IH (step dec c s e)). fold (run dec c (step dec c s e) evs) in *.
-  destruct (step_measure c s e) as [E|L]; [rewrite E in *; exact IH|lia].
+  destruct (step_measure c s e) as [E|[L|(_ & L)]]; [rewrite E in *; exact IH|lia|lia].
 Qed.
 
-(* a schedule all of whose events do something is no longer than the measure *)
+(* a schedule all of whose events (other than option assignments) do something has no more
+   such events than the measure *)
 Fixpoint effective (c : nat) (s : st) (evs : list ev) : Prop :=
   match evs with
   | [] => True
-  | e :: t => step dec c s e <> s /\ effective c (step dec c s e) t
+  | e :: t => (is_opt e = false -> step dec c s e <> s) /\ effective c (step dec c s e) t
   end.
+Definition work (evs : list ev) : nat := length (filter (fun e => negb (is_opt e)) evs).
 
-Lemma effective_bound c evs : forall s, effective c s evs -> length evs + measure (run dec c s evs) <= measure s.
+Lemma effective_bound c evs : forall s, effective c s evs -> work evs + measure (run dec c s evs) <= measure s.
 Proof.
-  induction evs as [|e evs IH]; intros s E; cbn [run fold_left length]; [lia|].
+  unfold work. induction evs as [|e evs IH]; intros s E; cbn [run fold_left length filter]; [lia|].
   destruct E as (E1 & E2). specialize (IH _ E2). fold (run dec c (step dec c s e) evs) in *.
-  destruct (step_measure c s e) as [X|L]; [contradiction|lia].
+  destruct (step_measure c s e) as [X|[L|(O & L)]].
+  - destruct (is_opt e) eqn:O; cbn [negb length]; [rewrite X in *; lia|contradiction (E1 eq_refl)].
+  - destruct (is_opt e); cbn [negb length]; lia.
+  - rewrite O. cbn [negb]. lia.
 Qed.
 
 (* until the consumer has seen the close, some event does something *)
@@ -758,7 +809,10 @@ Proof.
   - destruct (t_seen_closed s) eqn:Hs.
     + exists []. split; [exact Hs|cbn; lia].
     + destruct (no_deadlock all c s Hc HI Hs) as (e & L).
-      destruct (IH (step dec c s e) ltac:(lia) (inv_step all c s e HI)) as (evs & R & Len).
+      assert (Se : ev_safe (s_kind (t_src s)) e).
+      { destruct e as [b| | |[|]]; try exact Logic.I. exfalso.
+        cbn [step] in L. unfold step_setopt, measure in L; cbn in L. lia. }
+      destruct (IH (step dec c s e) ltac:(lia) (inv_step all c s e Se HI)) as (evs & R & Len).
       exists (e :: evs). split; [exact R|cbn [length]; lia].
 Qed.
 
@@ -775,15 +829,15 @@ Definition arun (c : nat) (s : st) (acts : list act) : st := fold_left (astep c)
 Definition MInv (s : st) : Prop := mem_ok (t_mem s) /\ fits (t_src s) (t_mem s).
 
 Lemma astep_mem c s a : MInv s ->
-  MInv (astep c s a) /\ mem_ext (t_mem s) (t_mem (astep c s a)) /\ t_cfg (astep c s a) = t_cfg s.
+  MInv (astep c s a) /\ mem_ext (t_mem s) (t_mem (astep c s a)) /\ p_zero (t_cfg (astep c s a)) = p_zero (t_cfg s).
 Proof.
   intros (A & B).
-  assert (Same : forall s', t_mem s' = t_mem s -> t_src s' = t_src s -> t_cfg s' = t_cfg s ->
-            MInv s' /\ mem_ext (t_mem s) (t_mem s') /\ t_cfg s' = t_cfg s).
+  assert (Same : forall s', t_mem s' = t_mem s -> t_src s' = t_src s -> p_zero (t_cfg s') = p_zero (t_cfg s) ->
+            MInv s' /\ mem_ext (t_mem s) (t_mem s') /\ p_zero (t_cfg s') = p_zero (t_cfg s)).
   { intros s' E1 E2 E3. unfold MInv. rewrite E1, E2. split; [split; assumption|split; [apply mem_ext_refl|exact E3]]. }
   assert (Next : forall r s1 m1 s', next_packet dec (t_cfg s) (t_src s) (t_mem s) = (r, s1, m1) ->
-            t_mem s' = m1 -> t_src s' = s1 -> t_cfg s' = t_cfg s ->
-            MInv s' /\ mem_ext (t_mem s) (t_mem s') /\ t_cfg s' = t_cfg s).
+            t_mem s' = m1 -> t_src s' = s1 -> p_zero (t_cfg s') = p_zero (t_cfg s) ->
+            MInv s' /\ mem_ext (t_mem s) (t_mem s') /\ p_zero (t_cfg s') = p_zero (t_cfg s)).
   { intros r s1 m1 s' En E1 E2 E3.
     pose proof (next_packet_spec _ _ _ _ _ _ A B En) as R.
     destruct (next_spec_frame _ _ _ _ _ _ B R) as (Hf1 & Hx).
@@ -793,7 +847,7 @@ Proof.
     eapply Next; eauto.
   - unfold packets_ctx. destruct (p_nocopy (t_cfg s) && p_zero (t_cfg s)); [apply Same; reflexivity|].
     destruct (t_pc s); apply Same; reflexivity.
-  - destruct e as [b| |]; cbn [step].
+  - destruct e as [b| | |bo]; cbn [step]; [| | |apply Same; reflexivity].
     + unfold step_prod. destruct (t_pc s); try (apply Same; reflexivity).
       * destruct (t_cancel s); apply Same; reflexivity.
       * destruct (next_packet dec (t_cfg s) (t_src s) (t_mem s)) as [[r s1] m1] eqn:En. eapply Next; eauto.
@@ -804,7 +858,7 @@ Proof.
 Qed.
 
 Lemma arun_mem c acts : forall s, MInv s ->
-  MInv (arun c s acts) /\ mem_ext (t_mem s) (t_mem (arun c s acts)) /\ t_cfg (arun c s acts) = t_cfg s.
+  MInv (arun c s acts) /\ mem_ext (t_mem s) (t_mem (arun c s acts)) /\ p_zero (t_cfg (arun c s acts)) = p_zero (t_cfg s).
 Proof.
   induction acts as [|a acts IH]; intros s M; cbn [arun fold_left].
   - split; [exact M|]. split; [apply mem_ext_refl|reflexivity].
@@ -914,6 +968,7 @@ Proof.
       destruct (recv_n dec c m y []) as [[x3 ps3] cl3] end. cbn [fst x_t] in *.
     eapply reach_trans; [exact R|]. eapply reach_trans; [apply (reach_one c _ (AEv EvCancel))|].
     eapply reach_trans; [exact R2|apply q_reach].
+  - cbn [fst x_t]. eapply reach_trans; [apply q_reach|apply (reach_one c _ (AEv (EvSetOpt nocopy)))].
 Qed.
 
 Definition sfinal (c : nat) (x : sst) (ops : list sop) : sst := fold_left (fun x o => fst (sstep dec c x o)) ops x.
@@ -960,7 +1015,7 @@ Definition ClInv (s : st) : Prop := t_pc s = PDone -> t_closed s = true.
 
 Lemma clinv_step c s e : ClInv s -> ClInv (step dec c s e).
 Proof.
-  intros H. destruct e as [b| |]; cbn [step].
+  intros H. destruct e as [b| | |bo]; cbn [step].
   - unfold step_prod. destruct (t_pc s) eqn:Hpc; try exact H.
     + destruct (t_cancel s); unfold close_done, ClInv; stfields; [reflexivity|discriminate].
     + destruct (next_packet dec (t_cfg s) (t_src s) (t_mem s)) as [[r s1] m1]. unfold ClInv; stfields.
@@ -968,6 +1023,7 @@ Proof.
     + destruct (t_cancel s); [destruct ((length (t_chan s) <? c) && negb b)|destruct (length (t_chan s) <? c)];
         unfold send, close_done, ClInv; stfields; try discriminate; try reflexivity. exact H.
   - unfold step_recv. destruct (t_chan s); [destruct (t_closed s)|]; unfold ClInv in *; stfields; first [exact H|intros; reflexivity].
+  - exact H.
   - exact H.
 Qed.
 
@@ -998,6 +1054,110 @@ Proof.
   assert (PD : t_pc s' = PDone). { destruct (t_pc s'); cbn [crank] in Z; try lia; [contradiction HSs; reflexivity|reflexivity]. }
   split; [exact PD|apply HLs; exact PD].
 Qed.
+
+(* ------------------------------------------------------------------ options changed mid-stream
+   Without any assumption on the option assignments: every live packet's view lies inside the
+   memory, and those not on the source's buffer (array 0) are immutable for ever.  A packet
+   decoded while NoCopy was false is never on array 0. *)
+Record WInv (s : st) : Prop := mkWInv {
+  W_mem : mem_ok (t_mem s);
+  W_fits : fits (t_src s) (t_mem s);
+  W_live : Forall (fun p => v_arr (k_data p) < length (t_mem s)) (live s)
+}.
+
+Lemma winv_weaken m m' l : mem_ext m m' -> Forall (fun p : packet => v_arr (k_data p) < length m) l ->
+  Forall (fun p : packet => v_arr (k_data p) < length m') l.
+Proof. intros (L & _) F. eapply Forall_impl; [|exact F]. cbn. intros p Hp. lia. Qed.
+
+Lemma winv_step c s e : WInv s -> WInv (step dec c s e).
+Proof.
+  intros HW. pose proof HW as [A B L]. unfold live in L.
+  destruct e as [b| | |bo]; cbn [step].
+  - unfold step_prod. destruct (t_pc s) eqn:Hpc; try exact HW.
+    + destruct (t_cancel s); constructor; unfold live, close_done; stfields; cbn [held]; cbn [held] in L; assumption.
+    + destruct (next_packet dec (t_cfg s) (t_src s) (t_mem s)) as [[r s1] m1] eqn:En.
+      pose proof (next_packet_spec _ _ _ _ _ _ A B En) as R.
+      destruct (next_spec_frame _ _ _ _ _ _ B R) as (Hf1 & Hx).
+      cbn [held] in L. rewrite app_nil_r in L.
+      constructor; unfold live; stfields; [eapply mem_ok_ext; eauto|exact Hf1|].
+      destruct R as [Hfl s1 Hfl' Hkd | ke rest s1 Hfl Hfl' Hkd Hlt | d ci rest s1 m1 p Hfl Hfl' Hkd Hlt Hext Hobs Hsafe Hbnd].
+      * rewrite classify_eof. cbn [held]. rewrite app_nil_r. exact L.
+      * destruct (classify ke); cbn [held]; rewrite app_nil_r; exact L.
+      * cbn [held]. rewrite app_assoc. apply Forall_app. split; [eapply winv_weaken; eauto|].
+        constructor; [exact Hbnd|constructor].
+    + cbn [held] in L.
+      assert (Hs : WInv (send s p)).
+      { constructor; unfold live, send; stfields; cbn [held]; try assumption.
+        rewrite app_nil_r. exact L. }
+      assert (Hr : WInv (close_done s)).
+      { constructor; unfold live, close_done; stfields; cbn [held]; try assumption.
+        rewrite app_nil_r. rewrite app_assoc in L. apply Forall_app in L. destruct L as (L1 & _). exact L1. }
+      destruct (t_cancel s); [destruct ((length (t_chan s) <? c) && negb b)|destruct (length (t_chan s) <? c)];
+        try exact Hs; try exact Hr. exact HW.
+  - unfold step_recv. destruct (t_chan s) as [|q0 rest] eqn:Hch; [destruct (t_closed s); [|exact HW]|].
+    + constructor; unfold live; stfields; try assumption.
+    + constructor; unfold live; stfields; try assumption; try (rewrite <- app_assoc; exact L).
+  - constructor; unfold live, step_cancel; stfields; assumption.
+  - constructor; unfold live, step_setopt; stfields; assumption.
+Qed.
+
+Lemma winv_run c evs : forall s, WInv s -> WInv (run dec c s evs).
+Proof. induction evs as [|e evs IH]; intros s H; [exact H|]. cbn [run fold_left]. apply IH, winv_step, H. Qed.
+
+Lemma winv_start s s1 : PreStart s -> packets_ctx s = Ok s1 -> WInv s1.
+Proof.
+  intros [A B C D E F G G1 G2] Ep. unfold packets_ctx in Ep.
+  destruct (p_nocopy (t_cfg s) && p_zero (t_cfg s)); [discriminate Ep|].
+  rewrite C in Ep. inversion Ep; subst; clear Ep. constructor; unfold live, set_pc; stfields; try assumption.
+  rewrite D, E. constructor.
+Qed.
+
+(* live packets off the buffer never change, whatever is done to the options *)
+Lemma winv_immut c s p : WInv s -> In p (live s) -> v_arr (k_data p) <> 0 ->
+  forall acts, vread (t_mem (arun c s acts)) (k_data p) = vread (t_mem s) (k_data p).
+Proof.
+  intros [A B L] Hin Nz. rewrite Forall_forall in L. specialize (L p Hin).
+  apply immut_fresh; [split; assumption|]. unfold fresh_ok. lia.
+Qed.
+
+(* a read performed while NoCopy is false yields a packet off the buffer *)
+Lemma read_copy_fresh c b s : WInv s -> t_pc s = PRead -> p_nocopy (t_cfg s) = false ->
+  forall p, t_pc (step_prod dec c b s) = PSel p ->
+  fresh_ok (t_mem (step_prod dec c b s)) (k_data p) /\ length (t_mem s) <= v_arr (k_data p).
+Proof.
+  intros [A B L] Hpc Nc p. unfold step_prod. rewrite Hpc.
+  destruct (next_packet dec (t_cfg s) (t_src s) (t_mem s)) as [[r s1] m1] eqn:En.
+  pose proof (next_packet_spec _ _ _ _ _ _ A B En) as R. stfields.
+  destruct R as [Hfl s1 Hfl' Hkd | ke rest s1 Hfl Hfl' Hkd Hlt | d ci rest s1 m1 p0 Hfl Hfl' Hkd Hlt Hext Hobs Hsafe Hbnd].
+  - rewrite classify_eof. discriminate.
+  - destruct (classify ke); discriminate.
+  - intros E. inversion E; subst. apply Hsafe. apply copy_safe. exact Nc.
+Qed.
+
+(* the zero-copy flag is set at construction and never changes *)
+Lemma zero_flag_run c acts : forall s, p_zero (t_cfg (arun c s acts)) = p_zero (t_cfg s).
+Proof.
+  induction acts as [|a acts IH]; intros s; cbn [arun fold_left]; [reflexivity|].
+  fold (arun c (astep c s a) acts). rewrite IH. clear IH.
+  destruct a as [| |e]; cbn [astep].
+  - unfold pull. destruct (next_packet dec (t_cfg s) (t_src s) (t_mem s)) as [[r s1] m1]. reflexivity.
+  - unfold packets_ctx. destruct (p_nocopy (t_cfg s) && p_zero (t_cfg s)); [reflexivity|]. destruct (t_pc s); reflexivity.
+  - destruct e as [b| | |bo]; cbn [step]; try reflexivity.
+    + unfold step_prod. destruct (t_pc s); try reflexivity.
+      * destruct (t_cancel s); reflexivity.
+      * destruct (next_packet dec (t_cfg s) (t_src s) (t_mem s)) as [[r s1] m1]. reflexivity.
+      * destruct (t_cancel s); [destruct ((length (t_chan s) <? c) && negb b)|destruct (length (t_chan s) <? c)]; reflexivity.
+    + unfold step_recv. destruct (t_chan s); [destruct (t_closed s)|]; reflexivity.
+Qed.
+
+Lemma start_src s s1 : packets_ctx s = Ok s1 -> s_kind (t_src s1) = s_kind (t_src s).
+Proof.
+  unfold packets_ctx. destruct (p_nocopy (t_cfg s) && p_zero (t_cfg s)); [discriminate|].
+  destruct (t_pc s); intros E; inversion E; reflexivity.
+Qed.
+
+Lemma arun_events c evs : forall s, arun c s (map AEv evs) = run dec c s evs.
+Proof. induction evs as [|e evs IH]; intros s; [reflexivity|]. cbn [map arun fold_left run]. apply IH. Qed.
 
 End WithDecoder.
 
